@@ -123,8 +123,27 @@ pub struct Outcome {
     pub nontrivial: bool,
 }
 
-/// Replays a history on fresh objects and checks every step against the counter model.
+/// Replays a history; a panic of the subject is a verdict about that history, not a crash of the
+/// checker.
 pub fn replay(n: u32, hist: &[Ev]) -> Outcome {
+    match std::panic::catch_unwind(|| replay_inner(n, hist)) {
+        Ok(o) => o,
+        Err(_) => {
+            tarpc::verif::set_yield_hook(None);
+            let p = crate::mock::take_panic();
+            Outcome {
+                violation: Some(format!("C13-panic|the limiter panicked: {p}")),
+                redundant: false,
+                enabled: vec![],
+                fingerprint: 0,
+                log: vec![format!("PANIC {p}")],
+                nontrivial: false,
+            }
+        }
+    }
+}
+
+fn replay_inner(n: u32, hist: &[Ev]) -> Outcome {
     use tarpc::server::Channel;
     let obs = Rc::new(RefCell::new(Obs::default()));
     let q: Rc<RefCell<VecDeque<Chan>>> = Rc::new(RefCell::new(VecDeque::new()));
